@@ -26,7 +26,7 @@ def consts(depth):
 
 def emit_behaviours(ctx, tier):
     cfg = tlc.make_cfg(constants=consts(3), spec="Spec", invariants=["SectorInv"], properties=["Frame", "ValuePreserving"])
-    r = tlc.run("TtnHeap", cfg, timeout=3000)
+    r = tlc.run("TtnHeap", cfg, vacuity=True, timeout=3000)
     ctx.add_tlc(r, "TtnHeap all histories of depth 3")
     if r["violated"]:
         ctx.violation(f"{ctx.pid}:spec:{r['violated']}", "TtnHeap violates " + r["violated"], {"tlc": r.get("error_text", "")[:2000]})
